@@ -305,7 +305,9 @@ class Simplifier(pysmt.walkers.DagWalker):
         if len(varset) == 0:
             return sf
 
-        return self.manager.ForAll(varset, sf)
+        # The remaining variables keep their order (a set has none)
+        return self.manager.ForAll([v for v in formula.quantifier_vars()
+                                    if v in varset], sf)
 
     def walk_exists(self, formula: FNode, args: List[FNode], **kwargs) -> FNode:
         assert len(args) == 1
@@ -316,7 +318,9 @@ class Simplifier(pysmt.walkers.DagWalker):
         if len(varset) == 0:
             return sf
 
-        return self.manager.Exists(varset, sf)
+        # The remaining variables keep their order (a set has none)
+        return self.manager.Exists([v for v in formula.quantifier_vars()
+                                    if v in varset], sf)
 
     def walk_plus(self, formula: FNode, args: List[FNode], **kwargs) -> FNode:
         to_sum = []
